@@ -488,18 +488,18 @@ func TestCheck(t *testing.T) {
 				"x every depth argument N, x {no abort, one aborted attempt at every position, failing before the first or after the last statement}; " +
 				"after every attempt .pc, every frame of .stack (return label and every saved variable) and every variable are compared with the PlusCal stack interpreter; " +
 				"distinct = distinct final reference states of completed executions",
-			"samples":                       samples,
-			"programs":                      int(programs),
+			"samples":                         samples,
+			"programs":                        int(programs),
 			"executions_with_aborted_attempt": int(aborted),
-			"max_procs":                     cfg.maxProcs,
-			"max_size":                      cfg.maxSize,
-			"depth_arguments":               cfg.depths,
-			"programs_by_feature":           feat,
-			"discarded_not_pluscal":         discards,
-			"unconfirmed_divergences":       int(unconfirmed),
-			"divergences":                   int(unconfirmed),
-			"hangs":                         int(hangs),
-			"exhaustive":                    !capHit.Load() && unconfirmed == 0,
+			"max_procs":                       cfg.maxProcs,
+			"max_size":                        cfg.maxSize,
+			"depth_arguments":                 cfg.depths,
+			"programs_by_feature":             feat,
+			"discarded_not_pluscal":           discards,
+			"unconfirmed_divergences":         int(unconfirmed),
+			"divergences":                     int(unconfirmed),
+			"hangs":                           int(hangs),
+			"exhaustive":                      !capHit.Load() && unconfirmed == 0,
 		}
 		if capHit.Load() {
 			cov["cap_hit"] = "deadline"
